@@ -70,6 +70,9 @@ func buildEras(seed int64) (*Scenario, error) {
 	b.Burn(103, bob, bobBurn)
 	b.Blk(103).Factoid[0].TimestampSaltMs = uint64(b.TS(103))*1000 + 7*60*1000 + 3500 // 7 min 3.5 s into the block
 	b.Burn(103, alice, 10*fct)                                                        // a second burn of the same address
+	b.Burn(103, bob, 3*fct)                                                           // bob burns twice in ONE block, and a third time
+	b.Burn(103, bob, 2*fct)
+	bobBurn += 5 * fct
 	aliceFCT := aliceBurn + 10*fct
 	b.OPR(104, 9, hprice(seed, 104), nil) // nine records: graded, no winners
 	garbageOPR(b, 104)
